@@ -40,6 +40,11 @@ def _cases(draw):
                 del n["c"][k]
             if g.p("_", 0.5) and not any(k.split("::")[0] == "hint" for k in n["c"]):
                 n["c"]["hint"] = g.text("H")       # the author's own hint on a type that has a default hint
+    for n, _ in model.walk(form["nodes"]):
+        # a container row whose only logic column is one a client may ignore on groups (required, readonly, a custom bind attribute)
+        if n["k"] in ("g", "r") and not any(k.split("::")[0] in ("relevant", "required", "readonly", "bind") for k in n["c"]) and g.p("_", 0.12):
+            k_, v_ = g.pick([("required", "yes"), ("required", "${%s} = 1" % n["c"]["name"] if False else "true()"), ("readonly", "yes"), ("bind::custom", "x"), ("required_message", "fill the group")])
+            n["c"][k_] = v_
     if g.p("_", 0.08) and not any(n["k"] == "r" for n, _ in model.walk(form["nodes"])):
         form.setdefault("settings", {})["flat"] = "yes"      # the legacy flat setting annotates every group in the JSON form
     return {"form": form}
